@@ -30,7 +30,12 @@ def suffix_all_kinds(s, ro, cur, rng, ids, pool, hidx):
     # DeprecationWarning: the refusal must still be MosCompletedMergeError
     werr = DeprecationWarning if hidx % 3 == 0 else None
     for k, kind in enumerate(kinds):
-        msg = gen.rand_message(rng, state, kind, 500 + k, ids, pool=pool)
+        msg = gen.rand_message(rng, state, kind, 500 + k, ids, pool=pool, other_ro=0.15)
+        r_ = rng.random()
+        if r_ < 0.2:
+            # envelope without a usable messageID: the refusal must not depend on it
+            import re as _re
+            msg = _re.sub(r'<messageID>[^<]*</messageID>', rng.choice(['', '<messageID/>', '<messageID>abc</messageID>']), msg, 1)
         ro, err, v, ev = s.step(ro, msg, {'history': hidx, 'phase': 'after-roDelete',
                                           'DeprecationWarning-as-error': werr is not None}, error_on=werr)
         s.note_sig(('after-end', kind, type(err).__name__ if err else 'accepted', werr is not None))
@@ -71,7 +76,8 @@ def history(s, hidx):
                                if ev else {}, msg_kind=kind)
     if rng.random() < 0.15:
         return      # a history that never ends
-    msg = B.msg_doc('roDelete', 400, pretty=rng.random() < 0.5)
+    # the roDelete may be addressed to another running-order ID: it completes this one all the same
+    msg = B.msg_doc('roDelete', 400, ro_id=('RO' if rng.random() < 0.7 else 'ANOTHER RO'), pretty=rng.random() < 0.5)
     ro, err, v, ev = s.step(ro, msg, {'history': hidx, 'phase': 'roDelete'})
     if ev is not None and ev.get('post_xml'):
         cur = ev['post_xml']
